@@ -41,7 +41,9 @@ ASSUMPTIONS = [
     "numbered :1..:n; deletion does not renumber; comparison ignores case iff curves.mnemonic_transforms is True, "
     "which is read from the LASFile under test)",
     "arguments documented as ndarray are passed as float ndarrays of one common length per run, CurveItems are always "
-    "freshly built (never shared between LASFiles or positions); all curves therefore keep equal length, which is "
+    "freshly built (never shared between LASFiles or positions; the rule append_shared hands one ndarray OBJECT to "
+    "two append_curve calls - the caller never writes into it afterwards, so the model keeps independent copies); "
+    "all curves therefore keep equal length, which is "
     "the precondition of the `data` view; `index` and `data` are not examined while the curve list is empty",
     "replace = the element a Python list would address keeps its position (lst[ix] = item), the new item's name is "
     "numbered like an insertion; a key is 'existing' for las[k] = ... iff k is in las.keys() (exact comparison)",
@@ -296,6 +298,8 @@ def optag(op, M):
     L = len(M)
     if k == "insert_curve":
         return k + ("(ix<0)" if op["ix"] < 0 else "(ix>len)" if op["ix"] > L else "")
+    if k == "append_curve" and op.get("share"):
+        return k + "(shared-array)"
     if k in ("delete_curve", "update_curve"):
         return k + ("(both)" if op.get("ix") is not None and op.get("m") is not None
                     else "(ix)" if op.get("ix") is not None else "(mnemonic)")
@@ -331,12 +335,20 @@ def item_of(it):
     return CurveItem(it["m"], it["u"], it["v"], it["de"], arr(it["d"]))
 
 
-def lasio_apply(las, op):
+def lasio_apply(las, op, shared=None):
     k = op["op"]
+
+    def given(d):
+        # "share": the caller hands the SAME ndarray object to every operation that carries these values (one depth
+        # array appended to two LASFiles); what lasio later does to one file must not show in the other
+        if op.get("share") and shared is not None:
+            return shared.setdefault(tuple(d), arr(d))
+        return arr(d)
+
     if k == "append_curve":
-        return attempt(las.append_curve, op["m"], arr(op["d"]), unit=op["u"], descr=op["de"], value=op["v"])
+        return attempt(las.append_curve, op["m"], given(op["d"]), unit=op["u"], descr=op["de"], value=op["v"])
     if k == "insert_curve":
-        return attempt(las.insert_curve, op["ix"], op["m"], arr(op["d"]), unit=op["u"], descr=op["de"], value=op["v"])
+        return attempt(las.insert_curve, op["ix"], op["m"], given(op["d"]), unit=op["u"], descr=op["de"], value=op["v"])
     if k == "delete_curve":
         kw = {}
         if op.get("ix") is not None:
@@ -489,6 +501,7 @@ class System(object):
         self.dead = False
         self.las, self.models, self.hdr = [], [], []
         self.history = []  # concrete operations applied so far
+        self.shared = {}  # arrays the caller gives to more than one operation
         self.effective = set()  # kinds of operations that took effect
         self.tags = set()
         self.maxlen = 0
@@ -567,7 +580,7 @@ class System(object):
             self.dead = True
             return False
         self.history.append(c)
-        res = lasio_apply(las, c)
+        res = lasio_apply(las, c, self.shared)
         if refused:
             tag += "(refused)"
             self.out.cls("refused:" + refused, "refused-and-%s" % ("raised" if is_raised(res) else "returned"))
@@ -699,6 +712,16 @@ def make_machine(ctx, pair):
             t, M = self.target(data)
             self.push(dict(op="append_curve", t=t, m=data.draw(st.sampled_from(NAMES)),
                            d=unique1(self.fresh(), self.S.n), **self.fields(data)))
+
+        @rule(data=st.data())
+        def append_shared(self, data):
+            """One array object given to both LASFiles (or twice to the same one)."""
+            if not self.live():
+                return
+            d = unique1(self.fresh(), self.S.n)
+            for t in ([0, 1] if pair else [0, 0]):
+                if self.live():
+                    self.push(dict(op="append_curve", t=t, m=data.draw(st.sampled_from(NAMES)), d=d, share=True, **self.fields(data)))
 
         @rule(data=st.data())
         def insert_curve(self, data):
